@@ -401,6 +401,57 @@ def oracle_noncubic_matcher(ck, rng):
                              oracle="noncubic_template_matcher", measured=detail)
 
 
+def oracle_searched_rotations(ck, rng):
+    """the rotations a template matcher searches for a (maximum, step) range about one axis are exactly the multiples of the step within the
+    maximum about *that* axis (z, y, x order), the identity included; and a particle rotated by one of them is reported with it"""
+    import dask.array as da
+    from acryo.pick import ZNCCTemplateMatcher
+    from scipy.spatial.transform import Rotation
+    from scipy import ndimage as ndi
+    t = np.zeros((9, 9, 9), np.float32); t[2:7, 3:6, 4:6] = 1; t[4, 2:8, 3] = 2; t[6, 6, 1:8] = 1.5
+    t = ndi.gaussian_filter(t, 0.6)
+    specs = [(20.0, 15.0), (35.0, 15.0), (30.0, 30.0), (29.0, 10.0), (90.0, 90.0), (44.0, 30.0)]
+    for it in range(6 if ck.tier == "quick" else 18):
+        mx, st = specs[it % len(specs)]
+        axis = it % 3
+        rr = [(0, 0), (0, 0), (0, 0)]; rr[axis] = (mx, st)
+        ck.oracle_count("searched_rotations", 1, 1)
+        try:
+            m = ZNCCTemplateMatcher(t, rotation=tuple(rr))
+            rv = np.degrees(Rotation.from_quat(np.asarray(m._quaternions)).as_rotvec())
+            kmax = int(np.floor(mx / st + 1e-9))
+            want = np.zeros((2 * kmax + 1, 3)); want[:, axis] = np.arange(-kmax, kmax + 1) * st
+            got = rv[np.argsort(rv[:, axis])] if len(rv) else rv
+            bad = None
+            if got.shape != want.shape or not np.allclose(got, want, atol=1e-3):
+                bad = f"searched rotation vectors (degrees, z,y,x) {np.round(rv, 2).tolist()} instead of {want.tolist()}"
+        except Exception as e:  # noqa
+            bad = f"raised {type(e).__name__}: {e}"
+        if bad:
+            ck.violation(what=f"ZNCCTemplateMatcher(rotation={tuple(rr)}): {bad}", inp={"rotation": [list(x) for x in rr]}, key={"site": "searched-rotations", "multiple": mx % st == 0},
+                         oracle="searched_rotations")
+            continue
+        # a particle turned by +step about that axis (resampled with scipy, about the box centre) is found with that rotation
+        if it < 3 or ck.tier != "quick":
+            Rk = Rotation.from_rotvec(np.radians(want[kmax + 1])).as_matrix()
+            zz, yy, xx = np.indices(t.shape).astype(float)
+            cen = (np.array(t.shape) - 1) / 2
+            src = Rk.T @ (np.stack([zz, yy, xx]).reshape(3, -1) - cen[:, None]) + cen[:, None]
+            part = ndi.map_coordinates(t, src, order=1, mode="constant").reshape(t.shape).astype(np.float32)
+            vol = rng.normal(scale=0.01, size=(30, 30, 30)).astype(np.float32)
+            vol[10:19, 11:20, 9:18] += part
+            ck.oracle_count("searched_rotations", 1, 1)
+            try:
+                mol = m.pick_molecules(da.from_array(vol, chunks=vol.shape), 1.0, min_distance=4.0, min_score=0.6)
+                ok = len(mol) == 1 and np.allclose(mol.pos[0], [14, 15, 13], atol=0.5) and (mol.rotator.inv() * Rotation.from_matrix(Rk)).magnitude()[0] < 1e-3
+                bad = None if ok else f"{len(mol)} picks at {np.round(mol.pos, 1).tolist()} with rotation vectors {np.round(np.degrees(mol.rotator.as_rotvec()), 1).tolist()}"
+            except Exception as e:  # noqa
+                bad = f"raised {type(e).__name__}: {e}"
+            if bad:
+                ck.violation(what=f"a particle turned by {want[kmax + 1].tolist()} degrees (z,y,x) with rotation={tuple(rr)}: {bad}", inp={"rotation": [list(x) for x in rr]},
+                             key={"site": "searched-rotation-pick"}, oracle="searched_rotations")
+
+
 def run(ck: common.Check):
     ck.design_ref = "DESIGN.md §6 C20"
     ck.trusted_base = TB
@@ -417,6 +468,7 @@ def run(ck: common.Check):
     oracle_noncubic_matcher(ck, np.random.default_rng(ck.seed + 202020))
     oracle_even_template_rotations(ck, np.random.default_rng(ck.seed + 212121))
     oracle_one_pick_per_particle(ck, np.random.default_rng(ck.seed + 222222))
+    oracle_searched_rotations(ck, np.random.default_rng(ck.seed + 232323))
 
 
 def replay(data):
